@@ -31,7 +31,25 @@ Inductive case :=
    observed results) and requests (with their observations) interleaved in the
    order in which they were executed -- the same path is typically sent again
    after later operations *)
-| Hist (mws : list (Z * bool)) (steps : list hobs).
+| Hist (mws : list (Z * bool)) (steps : list hobs)
+(* a history like [Hist], but every request goes through the adapter
+   mux.ToHandler(router) (the function the udp/tcp/dtls servers call), and the
+   RouteParams are those the first middleware / the handler SAW when it was
+   invoked (None: nothing to see -- no variables, empty Path and PathTemplate) *)
+| Adapt (mws : list (Z * bool)) (steps : list hobs)
+(* lock discipline, witnessed: operations [pre] on a fresh router, then ONE
+   request [segs] whose scan visited the patterns [visited] in this order;
+   [held]: at each visit, was the router's lock held (probe: TryLock fails);
+   when the scan was about to look at its [k]-th route (0-based) another
+   goroutine called operation [o]: [inside] = that call returned while the
+   scanning goroutine was still parked at this visit (false = it was seen
+   waiting for the lock), [code] its result; [q] what the request observed;
+   [post] the same request once more after both have finished *)
+| Excl (pre : list (op * Z)) (segs : list str) (visited : list str) (k : nat) (held : list bool)
+       (o : op) (inside : bool) (code : Z) (q : req) (post : req)
+(* the concurrent run ended with the Go runtime aborting the process
+   (kind 1: "fatal error: concurrent map ...", 2: any other abnormal exit) *)
+| ConcAbort (stable pool : list (str * Z)) (kind : Z).
 
 (* ---- model side ---- *)
 
@@ -109,8 +127,60 @@ Fixpoint hist_agrees (st : rstate) (mws : list (Z * bool)) (steps : list hobs) :
   | HQ q :: r => req_agrees st mws q && hist_agrees st mws r
   end.
 
+(* through the adapter: the model's [to_handler] (a new RouteParams per request) *)
+Fixpoint adapt_agrees (st : rstate) (mws : list (Z * bool)) (steps : list hobs) : bool :=
+  match steps with
+  | [] => true
+  | HO o code :: r =>
+      let '(st', res) := apply_op st o in
+      (res_code res =? code) && adapt_agrees st' mws r
+  | HQ (segs, trace, params) :: r =>
+      let '(mt, mp) := to_handler st mws (order_for st params) segs in
+      list_eqb ev_eqb mt trace && params_eqb (rp_obs mp) params && adapt_agrees st mws r
+  end.
+
+(* position of a pattern in the route map *)
+Fixpoint pos_of (m : list (str * route)) (pat : str) (i : nat) : list nat :=
+  match m with
+  | [] => []
+  | (k, _) :: r => if str_eqb k pat then [i] else pos_of r pat (S i)
+  end.
+
+(* the fine-grained model on the observed scenario: thread 0 dispatches [segs]
+   visiting the map in the observed order, thread 1 performs [o]; thread 0 runs
+   up to its k-th visit, thread 1 tries, thread 0 finishes, thread 1 finishes *)
+Definition excl_run (st : rstate) (segs : list str) (order : list nat) (k : nat) (o : op) : fconfig * fconfig :=
+  let c0 := finit st [[JServe segs order]; [JOp o]] in
+  let c1 := frun c0 ([0; 0] ++ repeat 0 k)%nat in
+  (c1, frun c1 ([1] ++ repeat 0 (length order + 2) ++ [1; 1])%nat).
+
+Definition excl_agrees (pre : list (op * Z)) (segs : list str) (visited : list str) (k : nat)
+           (held : list bool) (o : op) (inside : bool) (code : Z) (q : req) (post : req) : bool :=
+  let '(st, ok) := replay init_state pre in
+  let order := flat_map (fun p => pos_of (st_routes st) p O) visited in
+  let '(c1, c2) := excl_run st segs order k o in
+  ok &&
+  (* the scan visited every route of the map exactly once *)
+  (length order =? length visited)%nat && (length order =? length (st_routes st))%nat &&
+  forallb (fun i => existsb (Nat.eqb i) order) (seq 0 (length (st_routes st))) &&
+  (k <? length order)%nat &&
+  (* the lock is held at every visit; the operation waits iff the model says it is blocked *)
+  (length held =? length order)%nat && forallb (fun b : bool => b) held &&
+  Bool.eqb inside (negb (fblocked c1 1)) &&
+  match fc_log c2, fc_results c2 with
+  | [d], [(_, res)] =>
+      let '(_, trace, params) := q in
+      let '(mt, mp) := finish_serve [] (d_dflt d) (d_sel d) (d_path d) in
+      list_eqb ev_eqb mt trace && params_eqb mp params && (res_code res =? code) &&
+      req_agrees (fc_st c2) [] post
+  | _, _ => false
+  end.
+
 Definition agrees (c : case) : bool :=
   match c with
+  | Adapt mws steps => adapt_agrees init_state mws steps
+  | Excl pre segs visited k held o inside code q post => excl_agrees pre segs visited k held o inside code q post
+  | ConcAbort _ _ _ => false
   | Reg pat code src =>
       let '(st, res) := apply_op init_state (OHandle pat (Some 1)) in
       (res_code res =? code) &&
@@ -198,8 +268,26 @@ Fixpoint hist_class (regs : list sroute) (d : option Z) (mws : list (Z * bool)) 
       if N.eqb c 0 then hist_class regs d mws r else c
   end.
 
+Fixpoint adapt_hist_class (regs : list sroute) (d : option Z) (mws : list (Z * bool)) (steps : list hobs) : N :=
+  match steps with
+  | [] => 0%N
+  | HO o code :: r => let '(regs', d') := spec_replay regs d [(o, code)] in adapt_hist_class regs' d' mws r
+  | HQ (segs, trace, params) :: r =>
+      let c := adapt_class regs d mws (filter_path (path_of segs)) trace params in
+      if N.eqb c 0 then adapt_hist_class regs d mws r else c
+  end.
+
+Definition req_class (regs : list sroute) (d : option Z) (q : req) : N :=
+  let '(segs, trace, params) := q in dispatch_class regs d [] (filter_path (path_of segs)) trace params.
+
 Definition pclass (c : case) : N :=
   match c with
+  | Adapt mws steps => adapt_hist_class [] (Some 0) mws steps
+  | Excl pre segs visited k held o inside code q post =>
+      let '(regs, d) := spec_replay [] (Some 0) pre in
+      let '(regs', d') := spec_replay regs d [(o, code)] in
+      first_class [excl_class held (inside && (code =? 0)); req_class regs d q; req_class regs' d' post]
+  | ConcAbort _ _ _ => 13%N
   | Reg _ _ _ => 0%N
   | Disp ops mws reqs =>
       let '(regs, d) := spec_replay [] (Some 0) ops in
